@@ -10,7 +10,13 @@ proposal delivered:
 * ``C03/<M>/no-op-free`` -- the replacement of the node itself is a deletion
   or structurally different from the node (a proposal that leaves the input
   unchanged is a one-step cycle);
-* ``C15/<M>/proposal-is-a-Simplification``.
+* ``C15/<M>/proposal-is-a-Simplification``;
+* ``C15/<M>/new-leaves-are-single-tokens`` -- every leaf the mutator creates
+  is exactly one lexeme (token, string literal or quoted symbol): concrete
+  texts through the reference lexer, symbolic ones (built from leaf texts of
+  the input and numerals) by z3 over the lexeme regular expression, given
+  that the input's leaf texts are lexemes; numerals abstracted to digit
+  strings.
 
 Loops over the children of the node are unrolled (6): obligations on such
 paths are labelled bounded.
@@ -81,6 +87,72 @@ def setup(eng):
     eng.iter_bound = 4
 
 
+def _re_chars(cs):
+    rs = [z3.Re(z3.StringVal(c)) for c in cs]
+    return rs[0] if len(rs) == 1 else z3.Union(*rs)
+
+
+_ALL = z3.AllChar(z3.ReSort(z3.StringSort()))
+_TOK = z3.Plus(z3.Diff(_ALL, _re_chars(' \t\n\r()";|')))
+_STR = z3.Concat(z3.Re(z3.StringVal('"')), z3.Star(z3.Union(
+    z3.Diff(_ALL, z3.Re(z3.StringVal('"'))), z3.Re(z3.StringVal('""')))),
+    z3.Re(z3.StringVal('"')))
+_QSYM = z3.Concat(z3.Re(z3.StringVal('|')), z3.Star(
+    z3.Diff(_ALL, z3.Re(z3.StringVal('|')))), z3.Re(z3.StringVal('|')))
+LEXEME = z3.Union(_TOK, _STR, _QSYM)
+_DIGITS = z3.Plus(z3.Range('0', '9'))
+
+
+def is_lexeme(text):
+    """concrete text is exactly one token / string literal / quoted symbol"""
+    from harness import refreader
+    try:
+        toks = list(refreader.lex(text))
+    except Exception:  # noqa
+        return False
+    return len(toks) == 1 and toks[0][0] in ('tok', 'str', 'qsym') and \
+        toks[0][2] == 0 and toks[0][3] == len(text)
+
+
+def lexeme_obligation(p, data):
+    """(hypotheses, goal) for: the symbolic leaf text is one lexeme, given
+    that the leaf texts of the input it is built from are lexemes; numerals
+    are abstracted to arbitrary digit strings."""
+    hyps = []
+    zs = []
+    for k, v in data.parts:
+        if k == 'c':
+            zs.append(z3.StringVal(v))
+        elif k == 'n':
+            d = z3.String('digits_%d' % v.get_id())
+            hyps.append(z3.InRe(d, _DIGITS))
+            zs.append(d)
+        else:
+            hyps.append(z3.InRe(v, LEXEME))
+            zs.append(v)
+    whole = zs[0] if len(zs) == 1 else z3.Concat(*zs)
+    return z3.Implies(z3.And(*hyps) if hyps else z3.BoolVal(True),
+                      z3.InRe(whole, LEXEME))
+
+
+def new_leaves(r, out=None, seen=None):
+    """leaves of a replacement that the mutator created itself"""
+    out = [] if out is None else out
+    seen = set() if seen is None else seen
+    if not isinstance(r, ObjVal) or id(r) in seen:
+        return out
+    seen.add(id(r))
+    if (r.tag or {}).get('lazy'):
+        return out  # a node of the input
+    d = r.attrs.get('data')
+    if isinstance(d, (str, SStr)):
+        out.append(d)
+    elif isinstance(d, (tuple, list)):
+        for c in d:
+            new_leaves(c, out, seen)
+    return out
+
+
 def descendants(node, out=None):
     out = out if out is not None else []
     out.append(node)
@@ -131,6 +203,20 @@ def make_run(theory, cname):
                     is_self = k is node.attrs['id']
                 else:
                     is_self = False
+                if isinstance(r, ObjVal):
+                    for d in new_leaves(r):
+                        if isinstance(d, str):
+                            p.oblige(f'C15/{N}/new-leaves-are-single-tokens',
+                                     is_lexeme(d),
+                                     info={'leaf': d, 'signature': f'{N} '
+                                           'creates a leaf that is not one '
+                                           'token'})
+                        else:
+                            p.oblige(f'C15/{N}/new-leaves-are-single-tokens',
+                                     mk_bool(lexeme_obligation(p, d)),
+                                     info={'leaf': repr(d)[:120],
+                                           'signature': f'{N} creates a leaf '
+                                           'that is not one token'})
                 if is_self and N in NOOP_FREE:
                     if r is None:
                         p.oblige(f'C03/{N}/no-op-free', True)
